@@ -457,6 +457,22 @@ type c19PagerInfo struct {
 
 func c19Pager(c *Ctx) {
 	const pkgName = "widgets/pager"
+	// a helper that takes the pending line and returns the line that is pending afterwards re-assigns its pointer
+	// parameter: such parameters are bound by value, the typestate of c19PagerLayout follows the copies
+	if pk := c.P.Pkg(pkgName); pk != nil {
+		if _, st := c19StructOf(pk, "Model"); st != nil {
+			if fv := c19FieldNamed(st, "lines"); fv != nil {
+				if sl, ok := fv.Type().Underlying().(*types.Slice); ok {
+					if pt, ok := sl.Elem().(*types.Pointer); ok {
+						if _, named := pt.Elem().(*types.Named); named {
+							c19BindByValue = func(t types.Type) bool { return types.Identical(t, pt) }
+							defer func() { c19BindByValue = nil }()
+						}
+					}
+				}
+			}
+		}
+	}
 	p := c19LoadPkg(c, pkgName)
 	if p == nil {
 		c.undecided("C19.b", pkgName, 0, "package not found")
@@ -576,96 +592,6 @@ func c19CanonVar(info *types.Info, e ast.Expr) types.Object {
 	return nil
 }
 
-// events of one supergraph node of a layout function (call in the node's alias context)
-type c19LineEvent struct {
-	kind string // fresh | append | flush | reset | otherLines | otherVar
-	v    types.Object
-}
-
-func (pi *c19PagerInfo) events(sn *c19SNode) []c19LineEvent {
-	info := pi.info
-	var out []c19LineEvent
-	if sn.pseudo == "ret" {
-		// the results of an inlined helper assigned to a line variable of the caller: a fresh line, or the
-		// very line that was passed in
-		for i, l := range sn.retLhs {
-			id, ok := unparen(l).(*ast.Ident)
-			if !ok || id.Name == "_" {
-				continue
-			}
-			o := info.ObjectOf(id)
-			if o == nil || !pi.isLinePtr(o.Type()) {
-				continue
-			}
-			var lv types.Object
-			c19With(sn.retFr, func() { lv = c19CanonVar(info, l) })
-			switch {
-			case sn.retStmt == nil || i >= len(sn.retStmt.Results) || len(sn.retStmt.Results) != len(sn.retLhs):
-				out = append(out, c19LineEvent{"otherVar", lv})
-			case pi.isFreshLine(unparen(sn.retStmt.Results[i])):
-				out = append(out, c19LineEvent{"fresh", lv})
-			case c19CanonVar(info, sn.retStmt.Results[i]) != nil && c19CanonVar(info, sn.retStmt.Results[i]) == lv:
-			default:
-				out = append(out, c19LineEvent{"otherVar", lv})
-			}
-		}
-		return out
-	}
-	if sn.n == nil {
-		return nil
-	}
-	varEv := func(kind string, x ast.Expr) {
-		if o := c19CanonVar(info, x); o != nil {
-			out = append(out, c19LineEvent{kind, o})
-		} else {
-			out = append(out, c19LineEvent{"otherVar", nil})
-		}
-	}
-	inspectNoLit(sn.n, func(m ast.Node) bool {
-		switch s := m.(type) {
-		case *ast.CallExpr:
-			if s == sn.skip {
-				return sn.pseudo != "post" // inlined: its body speaks for itself
-			}
-			if fn := calleeOf(info, s); fn != nil && pi.appenders[fn] {
-				if sel, ok := unparen(s.Fun).(*ast.SelectorExpr); ok {
-					varEv("append", sel.X)
-				}
-			}
-		case *ast.AssignStmt:
-			if x := pi.isCharsAppend(s); x != nil {
-				varEv("append", x)
-				return true
-			}
-			for i, l := range s.Lhs {
-				var rhs ast.Expr
-				if len(s.Lhs) == len(s.Rhs) {
-					rhs = unparen(s.Rhs[i])
-				}
-				if c19SelField(info, l) == pi.fLines {
-					out = append(out, pi.linesStore(l, rhs))
-					continue
-				}
-				if id, ok := unparen(l).(*ast.Ident); ok && id.Name != "_" {
-					if o := info.ObjectOf(id); o != nil && pi.isLinePtr(o.Type()) {
-						if sn.pseudo == "post" {
-							continue // decided per return of the inlined helper
-						}
-						fresh := pi.isFreshLine(rhs)
-						if fresh {
-							varEv("fresh", l)
-						} else {
-							out = append(out, c19LineEvent{"otherVar", c19CanonVar(info, l)})
-						}
-					}
-				}
-			}
-		}
-		return true
-	})
-	return out
-}
-
 func (pi *c19PagerInfo) isFreshLine(rhs ast.Expr) bool {
 	switch t := rhs.(type) {
 	case *ast.UnaryExpr:
@@ -685,371 +611,32 @@ func (pi *c19PagerInfo) linesStore(lhs, rhs ast.Expr) c19LineEvent {
 	switch t := rhs.(type) {
 	case *ast.CompositeLit:
 		if len(t.Elts) == 0 {
-			return c19LineEvent{"reset", nil}
+			return c19LineEvent{kind: "reset", v: nil}
 		}
 	case *ast.Ident:
 		if isNilExpr(info, t) {
-			return c19LineEvent{"reset", nil}
+			return c19LineEvent{kind: "reset", v: nil}
 		}
 	case *ast.SliceExpr:
 		if c19SelField(info, t.X) == pi.fLines && t.Low == nil && t.High != nil {
 			if v, ok := constInt(info, t.High); ok && v == 0 {
-				return c19LineEvent{"reset", nil}
+				return c19LineEvent{kind: "reset", v: nil}
 			}
 		}
 	case *ast.CallExpr:
 		if c19IsBuiltin(info, t, "make") != "" && len(t.Args) >= 2 {
 			if v, ok := constInt(info, t.Args[1]); ok && v == 0 {
-				return c19LineEvent{"reset", nil}
+				return c19LineEvent{kind: "reset", v: nil}
 			}
 		}
 		if c19IsBuiltin(info, t, "append") != "" && len(t.Args) == 2 && t.Ellipsis == token.NoPos &&
 			c19SelField(info, t.Args[0]) == pi.fLines && c19TermID(info, t.Args[0]) == c19TermID(info, lhs) {
 			if o := c19CanonVar(info, t.Args[1]); o != nil {
-				return c19LineEvent{"flush", o}
+				return c19LineEvent{kind: "flush", v: o}
 			}
 		}
 	}
-	return c19LineEvent{"otherLines", nil}
-}
-
-const (
-	c19LineFresh   = 0
-	c19LineDirty   = 1
-	c19LineFlushed = 2
-)
-
-func c19PagerLayout(c *Ctx, pi *c19PagerInfo, fi *FuncInfo, fl *c19Flow) {
-	info := pi.info
-	type site struct {
-		c19Pos
-		sn *c19SNode
-		ev c19LineEvent
-	}
-	var sites []site
-	var lineVar types.Object
-	undec := ""
-	evCache := map[*c19SNode][]c19LineEvent{}
-	eventsOf := func(sn *c19SNode) []c19LineEvent {
-		if evs, ok := evCache[sn]; ok {
-			return evs
-		}
-		var evs []c19LineEvent
-		c19With(sn.fr, func() { evs = pi.events(sn) })
-		evCache[sn] = evs
-		return evs
-	}
-	for _, b := range fl.blks {
-		for i, sn := range b.nodes {
-			for _, ev := range eventsOf(sn) {
-				sites = append(sites, site{c19Pos{b, i}, sn, ev})
-				switch ev.kind {
-				case "otherLines":
-					undec = "a store to Model.lines that is neither a reset nor lines = append(lines, l): " + sn.short()
-				case "otherVar":
-					undec = "a line variable is assigned something other than a fresh &line{}: " + sn.short()
-				case "flush", "append", "fresh":
-					if lineVar == nil {
-						lineVar = ev.v
-					} else if ev.v != lineVar {
-						undec = "more than one pending-line variable"
-					}
-				}
-			}
-		}
-	}
-	nAppend := 0
-	for _, s := range sites {
-		if s.ev.kind == "append" {
-			nAppend++
-		}
-	}
-	if undec == "" && nAppend == 0 {
-		undec = "no append of a cell to the pending line was recognised (x.chars = append(x.chars, v), inline or in a method of the line type)"
-	}
-	if undec != "" || lineVar == nil {
-		if undec == "" {
-			undec = "no pending-line variable found"
-		}
-		c.undecided("C19.b", fi.Name+"/pending line typestate", fi.Decl.Pos(), "%s", undec)
-		return
-	}
-	fl.seedRoot[lineVar] = true
-	fl.ghostInit = c19LineFresh
-	fl.ghost = func(sn *c19SNode, st uint32) []uint32 {
-		evs := eventsOf(sn)
-		if len(evs) == 0 {
-			return nil
-		}
-		gs := st >> c19GhostShift & 3
-		for _, ev := range evs {
-			switch ev.kind {
-			case "fresh":
-				gs = c19LineFresh
-			case "append":
-				if gs == c19LineFresh {
-					gs = c19LineDirty
-				}
-			case "flush":
-				gs = c19LineFlushed
-			}
-		}
-		return []uint32{st&^(3<<c19GhostShift) | gs<<c19GhostShift}
-	}
-	// dirty implies len(l.chars) >= 1, fresh implies len(l.chars) == 0
-	var lenBase *c19Lin
-	lenSearched := false
-	fl.feasibleX = func(fl *c19Flow, st uint32) bool {
-		if !lenSearched {
-			lenSearched = true
-			for _, p := range fl.tracked {
-				if p.kind == "bool" || len(p.terms) != 1 || !p.terms[0].isLen || p.base.coef[p.terms[0].id] != 1 {
-					continue
-				}
-				for _, rp := range p.terms[0].paths {
-					if rp.root == lineVar && len(rp.path) == 1 {
-						lenBase = p.base
-					}
-				}
-			}
-		}
-		if lenBase == nil {
-			return true
-		}
-		lo, hi := fl.interval(st, lenBase, c19BaseKey(lenBase))
-		switch st >> c19GhostShift & 3 {
-		case c19LineDirty:
-			return hi >= 1
-		case c19LineFresh:
-			return lo <= 0
-		}
-		return true
-	}
-	// the column counter: a local variable compared with Model.width
-	var colObj types.Object
-	var colLtWidth *c19Form
-	for _, b := range fl.blks {
-		if b.cnd == nil || b.cnd.Tag != nil {
-			continue
-		}
-		c19With(b.fr, func() {
-			inspectNoLit(b.cnd.Expr, func(n ast.Node) bool {
-				be, ok := n.(*ast.BinaryExpr)
-				if !ok || !isIntegerExpr(info, be.X) || !isIntegerExpr(info, be.Y) {
-					return true
-				}
-				switch be.Op {
-				case token.LSS, token.LEQ, token.GTR, token.GEQ, token.EQL, token.NEQ:
-				default:
-					return true
-				}
-				l := c19LinOf(info, be.X).plus(c19LinOf(info, be.Y), -1)
-				if len(b.nodes) > 0 {
-					use := b.nodes[len(b.nodes)-1].loc
-					l = c19Resolve(c, b.fr.fi, l, &use)
-				}
-				var widthT, colT *c19Term
-				for _, id := range l.ids() {
-					t := l.tm[id]
-					if c19SelField(info, t.ex) == pi.fWide {
-						widthT = t
-					} else if len(t.paths) == 1 && len(t.paths[0].path) == 0 && len(l.ids()) == 2 {
-						if v, ok := t.paths[0].root.(*types.Var); ok && !v.IsField() && v.Parent() != pi.pk.Types.Scope() {
-							colT = t
-						}
-					}
-				}
-				if widthT != nil && colT != nil && colObj == nil {
-					colObj = colT.paths[0].root
-					cl, wl := c19NewLin(), c19NewLin()
-					cl.coef[colT.id], cl.tm[colT.id] = 1, colT
-					wl.coef[widthT.id], wl.tm[widthT.id] = 1, widthT
-					colLtWidth = fl.goal(fl.le(cl.plus(wl, -1).addK(1)))
-				}
-				return true
-			})
-		})
-	}
-	if colObj != nil {
-		fl.goal(fl.eq(c19PathLin(colObj, nil, false)))
-	}
-	fl.solve()
-	if fl.err != "" {
-		c.undecided("C19.b", fi.Name+"/pending line typestate", fi.Decl.Pos(), "%s", fl.err)
-		return
-	}
-	ghostOf := func(st uint32) uint32 { return st >> c19GhostShift & 3 }
-	anyGhost := func(sts map[uint32]bool, want uint32) bool {
-		for st := range sts {
-			if ghostOf(st) == want {
-				return true
-			}
-		}
-		return false
-	}
-	lname := lineVar.Name()
-	if len(fl.exitStates()) == 0 {
-		c.undecided("C19.b", fi.Name+"/pending line flushed at return", fi.Decl.Body.Rbrace, "no abstract state reaches a return of %s", fi.Name)
-		return
-	}
-	c.check(!anyGhost(fl.exitStates(), c19LineDirty), "C19.b", fi.Name+"/pending line flushed at return", fi.Decl.Body.Rbrace,
-		"no path reaches a return with cells appended to "+lname+" that were not stored in lines",
-		"a path from the append to "+lname+" to return skips lines = append(lines, "+lname+"): a last line without terminator (or shorter than the width) is never presented")
-	hasEvent := func(kind string) func(*c19SNode) bool {
-		return func(sn *c19SNode) bool {
-			for _, ev := range eventsOf(sn) {
-				if ev.kind == kind {
-					return true
-				}
-			}
-			return false
-		}
-	}
-	// the column counter and the variables it is copied to and from (parameters, results, named locals)
-	colClass := map[types.Object]bool{}
-	if colObj != nil {
-		colClass[colObj] = true
-		for changed := true; changed; {
-			changed = false
-			for _, b := range fl.blks {
-				for _, sn := range b.nodes {
-					for _, ef := range fl.effectsOf(sn) {
-						if ef.kind != 'a' || ef.rhs == nil || len(ef.lhs.path) != 0 || len(ef.rhs.ids()) != 1 || ef.rhs.k != 0 {
-							continue
-						}
-						t := ef.rhs.tm[ef.rhs.ids()[0]]
-						if ef.rhs.coef[t.id] != 1 || len(t.paths) != 1 || len(t.paths[0].path) != 0 || t.isLen {
-							continue
-						}
-						x, y := ef.lhs.root, t.paths[0].root
-						if colClass[x] != colClass[y] {
-							colClass[x], colClass[y] = true, true
-							changed = true
-						}
-					}
-				}
-			}
-		}
-	}
-	inClassTerm := func(t *c19Term) bool {
-		return t != nil && len(t.paths) == 1 && len(t.paths[0].path) == 0 && colClass[t.paths[0].root] && !t.isLen
-	}
-	// colStore: the node advances a column variable (col' = col + something)
-	colAdds := func(sn *c19SNode) bool {
-		for _, ef := range fl.effectsOf(sn) {
-			if ef.kind != 'a' || !colClass[ef.lhs.root] || len(ef.lhs.path) != 0 || ef.rhs == nil {
-				continue
-			}
-			for _, id := range ef.rhs.ids() {
-				if inClassTerm(ef.rhs.tm[id]) && ef.rhs.coef[id] == 1 && (len(ef.rhs.ids()) > 1 || ef.rhs.k > 0) {
-					return true
-				}
-			}
-		}
-		return false
-	}
-	// usesCol: the node reads a column variable other than to copy it
-	usesCol := func(sn *c19SNode) bool {
-		if sn.n == nil || colObj == nil || sn.pseudo != "" {
-			return false
-		}
-		pureCopy := true
-		for _, ef := range fl.effectsOf(sn) {
-			if ef.kind == 'a' && colClass[ef.lhs.root] && len(ef.lhs.path) == 0 && ef.rhs != nil && len(ef.rhs.ids()) == 1 && ef.rhs.k == 0 && inClassTerm(ef.rhs.tm[ef.rhs.ids()[0]]) {
-				continue
-			}
-			pureCopy = false
-		}
-		if pureCopy && len(fl.effectsOf(sn)) > 0 {
-			return false
-		}
-		uses := false
-		c19With(sn.fr, func() {
-			inspectNoLit(sn.n, func(m ast.Node) bool {
-				if id, ok := m.(*ast.Ident); ok && info.Uses[id] != nil {
-					if o := c19CanonVar(info, id); o != nil && colClass[o] {
-						uses = true
-					}
-				}
-				return true
-			})
-		})
-		return uses
-	}
-	var colZero *c19Form
-	if colObj != nil {
-		colZero = fl.all["eq|"+c19BaseKey(c19PathLin(colObj, nil, false))+"|0"].atom()
-	}
-	var flushes []site
-	nReset := 0
-	for _, s := range sites {
-		pre := fl.statesAt(s.c19Pos)
-		if len(pre) == 0 && s.ev.kind != "reset" {
-			c.undecided("C19.b", fi.Name+"/"+s.ev.kind+" site reachable", s.sn.pos(), "no abstract state reaches %s", s.sn.short())
-			continue
-		}
-		switch s.ev.kind {
-		case "fresh":
-			c.check(!anyGhost(pre, c19LineDirty), "C19.b", fi.Name+"/fresh line replaces only a stored or empty line", s.sn.pos(),
-				"the line variable is never overwritten while it holds unstored cells", "a line holding cells that were not stored in lines is overwritten: text is lost")
-		case "append":
-			c.check(!anyGhost(pre, c19LineFlushed), "C19.b", fi.Name+"/append goes to an unstored line", s.sn.pos(),
-				"cells are appended only to a line that is not yet in lines", "cells are appended to a line that is already stored in lines: the line break is lost and a later flush stores the line twice")
-			if colLtWidth == nil {
-				c.undecided("C19.b", fi.Name+"/line closed when col >= width", s.sn.pos(), "no comparison of a local column counter with Model.width found")
-			} else {
-				okAll, wit := true, ""
-				var sts []uint32
-				for st := range pre {
-					sts = append(sts, st)
-				}
-				sort.Slice(sts, func(i, j int) bool { return sts[i] < sts[j] })
-				for _, st := range sts {
-					if okAll && ghostOf(st) == c19LineDirty && fl.eval3(colLtWidth, st) != 1 {
-						okAll, wit = false, fl.describe(st)
-					}
-				}
-				c.check(okAll, "C19.b", fi.Name+"/line closed when col >= width", s.sn.pos(),
-					"a cell is appended to a non-empty line only while "+colObj.Name()+" < width",
-					"a cell can be appended to a non-empty line although "+colObj.Name()+" >= width ("+wit+"): the line is longer than the window and its tail is clipped")
-				// the column counter restarts with every fresh line
-				okZero := true
-				for _, st := range sts {
-					if ghostOf(st) == c19LineFresh && colZero != nil && fl.eval3(colZero, st) != 1 {
-						okZero, wit = false, fl.describe(st)
-					}
-				}
-				c.check(okZero, "C19.b", fi.Name+"/column restarts after flush", s.sn.pos(),
-					"the first cell of a fresh line is appended with "+colObj.Name()+" == 0",
-					"a cell can be appended to a fresh line with "+colObj.Name()+" != 0 ("+wit+"): the column counter was not reset after the line was stored, every following cell closes its own line")
-				// the column counter advances with the cell before it is tested or the next cell appended
-				bad := ""
-				fl.walk(c19Pos{s.b, s.i + 1}, func(p c19Pos, sn *c19SNode) bool {
-					if colAdds(sn) {
-						return false
-					}
-					if (usesCol(sn) || hasEvent("append")(sn)) && bad == "" {
-						bad = sn.short()
-						return false
-					}
-					return true
-				}, nil)
-				c.check(bad == "", "C19.b", fi.Name+"/column advances with each cell", s.sn.pos(),
-					colObj.Name()+" is increased after the append before it is tested again",
-					colObj.Name()+" is tested or the next cell appended ("+bad+") without having been advanced by the cell's width: lines never fill up and are not wrapped at the window width")
-			}
-		case "flush":
-			flushes = append(flushes, s)
-			c.check(!anyGhost(pre, c19LineFlushed), "C19.b", fi.Name+"/line stored once", s.sn.pos(),
-				"a line is stored in lines at most once", "the same line can be stored in lines twice")
-			c.check(fl.mustPrecede(hasEvent("reset"), s.c19Pos), "C19.b", fi.Name+"/lines reset before flush", s.sn.pos(),
-				"every path to the flush has emptied lines first", "lines is not emptied before lines are appended: a second Layout (every width change) duplicates the text")
-		case "reset":
-			nReset++
-			c.check(!fl.inLoop(s.b), "C19.b", fi.Name+"/lines reset outside the loops", s.sn.pos(),
-				"lines is emptied once, not per character", "lines is emptied inside a loop: earlier lines are dropped")
-		}
-	}
+	return c19LineEvent{kind: "otherLines", v: nil}
 }
 
 func c19PagerDraw(c *Ctx, pi *c19PagerInfo, fi *FuncInfo, fl *c19Flow, sinks []c19Hit) {
